@@ -285,11 +285,40 @@ def compare_model(impl_outcome, impl_extras, model_line):
     return None
 
 
+def replay(ctx, res):
+    """./check C20 --replay f : re-run the recorded input on a fresh harness and re-evaluate the oracle"""
+    r = json.load(open(ctx["replay"]))
+    h = os.path.join(core.BUILD, "verifh")
+    op = r["ops"][0]
+    if op.startswith("dec "):
+        rc, out, err = core.run_lines(h, ["codec", "ops"], [op])
+        toks = op.split()
+        path = "toml" if toks[1] == "group-toml" else "proto"
+        m = parse_dump(" ".join(t for t in toks[2:] if not t.startswith("@")))
+        rc2, so, _ = core.run_lines(h, ["codec", "0", "0"], [])
+        schemes = so[0].split("\t")[1].split(",")
+        must = classify_reject(path, m, schemes)
+        print(f"replay: {out[0][:300]}  (property demands rejection: {must})")
+        if must and out[0].startswith("ok"):
+            res.report(f"group-{path}:{must}", dict(r, observed=[out[0][:500]]))
+    else:
+        args = r["harness_args"]
+        for l in run_harness_gen(int(args[1]), int(args[2])):
+            f = l.split("\t")
+            if f[0] == "RT" and f[1] == r["case"] and f[2] == r["codec"]:
+                why = oracle_rt(f[2], f[3], f[4], f[5]) if not f[4].startswith("panic") else f[4]
+                print(f"replay: case {f[1]} codec {f[2]}: {'VIOLATES: ' + why if why else 'passes the oracle'}")
+                if why:
+                    res.add_violation(dict(r, observed=[f[4][:4000]], oracle=why))
+    res.cov["evaluations"] = 1
+    res.cov["rule"] = "replay of one recorded input"
+
+
 def explore(ctx, res):
     rng = ctx["rng"]
     tier = "thorough" if ctx["deep"] else ctx["tier"]
     deep = tier == "thorough"
-    count, shards = (6, 1) if tier == "quick" else (40, 12)
+    count, shards = (8, 1) if tier == "quick" else (40, 12)
     h = os.path.join(core.BUILD, "verifh")
     dist = {"by_codec": {}, "by_scheme": {}, "by_nodes": {}, "by_status": {}, "optional_absent": {}, "equality_helper": {},
             "dec_by_outcome": {}, "dec_by_mutation": {}}
@@ -299,6 +328,9 @@ def explore(ctx, res):
 
     def bump(table, key):
         dist[table][key] = dist[table].get(key, 0) + 1
+
+    if ctx.get("replay"):
+        return replay(ctx, res)
 
     # ---------------- P3 corpus: decode-only witnesses first
     corpus_ops = []
@@ -380,7 +412,7 @@ def explore(ctx, res):
             path = "toml" if toks[1] == "group-toml" else "proto"
             m = parse_dump(" ".join(t for t in toks[2:] if not t.startswith("@")))
             ops.append(("corpus:" + name, path, m, [t for t in toks[2:] if t.startswith("@")]))
-    per = len(mirrors) if deep else min(len(mirrors), 20)
+    per = min(len(mirrors), 400 if deep else 20)
     gb = {}
     for seed, lines in zip(seeds, outs):
         for l in lines:
